@@ -1,17 +1,29 @@
 /-
-  C15 — command lifecycle: `BaseCommand.entry_point`, `AsyncScript.run`, `Scanner.setup/teardown`,
-  `UDSScanner.setup/teardown`, `run_hook`, flock, META.json, run_meta row, zstd log handler
+  C15 — command lifecycle: `BaseCommand.entry_point`, `FlockMixin`, `prepare_artifacts_dir`, `AsyncScript.run`,
+  `Scanner.setup/teardown`, `UDSScanner.setup/teardown`, `run_hook`, META.json, run_meta row, zstd log handler
   (src/gallia/command/base.py, command/uds.py, db/handler.py, log.py).
 
   The model follows the code statement by statement.  A run is determined by
-    * `Cfg`    which resources are configured (lock file, artifacts dir, database, hooks) and the command kind,
-    * `Script` what every lifecycle point does (returns, `sys.exit(n)`, raises a connection / UDS / other error,
-               `KeyboardInterrupt`, cancellation of the main task; hook scripts exit zero / non-zero),
+    * `World`  what the run finds outside itself: the state of the lock file (free / held by somebody else / cannot be
+               opened), the run directories already below `<artifacts_base>/<command id>` and whether a new one can be
+               created, the name `datetime.now()` gives the new directory,
+    * `Cfg`    which resources are configured (lock file, artifacts dir, database, hooks; power supply, dumpcap,
+               tester-present task, ECU properties) and the command kind,
+    * `Script` what every lifecycle point does: the points of the command itself (setup, main, teardown before / after
+               `super().teardown()`: returns, `sys.exit(n)`, raises a connection / UDS / other error,
+               `KeyboardInterrupt`, cancellation of the main task), the framework's own steps inside `Scanner.setup`,
+               `UDSScanner.setup` and their teardowns (power supply connect, dumpcap, transport connect, `ecu.connect`,
+               tester-present start / stop, properties, `transport.close()`, `dumpcap.stop()`), hook scripts exiting
+               zero / non-zero, the database opening or not,
   and yields a `Final`: what the caller of `entry_point()` sees and what is left on disk.
 
-  `Quirks` switches on the three behaviours of the pinned tree that were repaired (`fix:` commits in the repo);
-  `entryPoint = entryPointQ {}` is the current code.  The quirks are kept so that the correspondence harness can
-  name a regression precisely and so that `Proofs/C15.lean` can show that each repair was necessary.
+  `setup()` and `teardown()` are lists of `Step`s run by `runSteps` (the first step that raises ends the list: Python's
+  sequencing of awaited statements); `runBody` is `AsyncScript.run`.
+
+  `Quirks` switches on the behaviours of the pinned tree that were repaired (`fix:` commits in the repo) and one
+  behaviour the code does not have (`mkdir(exist_ok=True)`); `entryPoint = entryPointQ {}` is the current code in a
+  benign world, `entryPointW {}` the current code in any world.  The quirks are kept so that the correspondence harness
+  can name a regression precisely and so that `Proofs/C15.lean` can show that each repair / each guard is necessary.
 -/
 namespace Gallia.Lifecycle
 
@@ -20,7 +32,7 @@ inductive Kind | plain | scanner | uds
 
 /-- class of an `Exception` raised by user code, as far as `CATCHED_EXCEPTIONS` can tell them apart -/
 inductive ErrClass
-  | conn   -- `ConnectionError` or a subclass (BrokenPipeError, ConnectionResetError, ...)
+  | conn   -- `ConnectionError` or a subclass (BrokenPipeError, ConnectionResetError, ConnectionRefusedError ...)
   | uds    -- `UDSException` or a subclass (MissingResponse, ...)
   | other  -- any other `Exception` (RuntimeError, ValueError, TimeoutError, OSError, AssertionError ...)
   deriving DecidableEq, Repr, Inhabited
@@ -43,15 +55,38 @@ structure Cfg where
   art : Bool := false
   db : Bool := false
   hooks : Bool := false
+  power : Bool := false     -- `--power-supply` given: `PowerSupply.connect` is the first step of `Scanner.setup`
+  dumpcap : Bool := false   -- `--dumpcap`; only effective together with an artifacts directory
+  tp : Bool := false        -- `--tester-present`: cyclic TesterPresent task of a UDS scanner
+  props : Bool := false     -- `--properties`: ECU properties are read in setup and in teardown of a UDS scanner
+  deriving DecidableEq, Repr, Inhabited
+
+/-- the dumpcap block of `Scanner.setup` -/
+inductive Dumpcap
+  | started      -- `Dumpcap.start` returned a process and `sync()` saw the pcap header
+  | notStarted   -- `Dumpcap.start` returned None: an error is logged, the run goes on without a capture
+  | missing      -- `shutil.which("dumpcap")` is None: RuntimeError
+  | syncFails    -- the process was started but `sync()` timed out: TimeoutError, the process is left behind
   deriving DecidableEq, Repr, Inhabited
 
 structure Script where
   preFails : Bool := false    -- pre-hook script exits non-zero
   dbFails : Bool := false     -- the database cannot be opened (not a database, unsupported schema version, ...)
-  setup : Ev := none
+  power : Ev := none          -- `PowerSupply.connect`                                  (Scanner.setup, if `power`)
+  dumpcap : Dumpcap := .started  --                                                    (Scanner.setup, if `art` and `dumpcap`)
+  connect : Ev := none        -- `load_transport(target).connect(target)`              (Scanner.setup)
+  ecuConnect : Ev := none     -- `ecu.connect()`                                       (UDSScanner.setup)
+  tpStart : Ev := none        -- `ecu.start_cyclic_tester_present` (raising = no task)  (UDSScanner.setup, if `tp`)
+  propsPre : Ev := none       -- `ecu.properties(True)`                                (UDSScanner.setup, if `props`)
+  setup : Ev := none          -- setup code of the command after `super().setup()`
   main : Ev := none
   tdPre : Ev := none          -- teardown code of the command before it calls `super().teardown()`
-  tdPost : Ev := none         -- ... and after it
+  propsPost : Ev := none      -- `ecu.properties(True)`                                (UDSScanner.teardown, if `props`)
+  tpStop : Ev := none         -- `ecu.stop_cyclic_tester_present` (the task is gone either way) (if `tp`)
+  ecuClose : Ev := none       -- `ecu.transport.close()`                               (UDSScanner.teardown)
+  close : Ev := none          -- `transport.close()`                                   (Scanner.teardown)
+  dcStop : Ev := none         -- `dumpcap.stop()`                                      (Scanner.teardown, if started)
+  tdPost : Ev := none         -- ... and after `super().teardown()`
   postFails : Bool := false
   deriving DecidableEq, Repr, Inhabited
 
@@ -60,12 +95,39 @@ structure Quirks where
   scannerDisconnect : Bool := false  -- `Scanner.teardown` disconnects the database itself
   cancelUnmapped : Bool := false     -- no `except` clause for `CancelledError`
   dbOpenUnguarded : Bool := false    -- `_db_insert_run_meta()` runs before the `try:`; `connect()` leaks on failure
+  mkdirExistOk : Bool := false       -- NOT in the code, never was: `artifacts_dir.mkdir(parents=True, exist_ok=True)`
+  deriving DecidableEq, Repr, Inhabited
+
+/-- what `_open_lockfile` + `_aquire_flock` find -/
+inductive LockEnv
+  | free     -- nobody holds the lock
+  | busy     -- another descriptor holds it: `LOCK_NB` fails, the blocking `flock` in a thread returns once it is free
+  | broken   -- the lock file cannot be created / opened, or `flock` raises an OSError other than EWOULDBLOCK
+  | interrupted  -- another descriptor holds it and the main task is cancelled (Ctrl-C) while the run waits
+  deriving DecidableEq, Repr, Inhabited
+
+/-- a `run-*` directory below `<artifacts_base>/<command id>`: its name (directory names sort like the time they
+    render) and its META.json (`some tag`: the file exists, `tag` stands for its content - the exit code for the
+    run that is modelled, anything for earlier runs) -/
+structure RunDir where
+  name : Nat
+  metaTag : Option Nat := none
+  deriving DecidableEq, Repr, Inhabited
+
+structure World where
+  lock : LockEnv := .free
+  baseOk : Bool := true        -- directories can be created below `artifacts_base`
+  now : Nat := 0               -- `run-{datetime.now():%Y%m%d-%H%M%S.%f}` of this run
+  runs : List RunDir := []     -- what is already there
+  latest : Option Nat := none  -- where the `LATEST` symlink points
   deriving DecidableEq, Repr, Inhabited
 
 inductive Hook | pre | post
   deriving DecidableEq, Repr, Inhabited
 
-inductive Act | pre | connect | setup | main | tdPre | close | tdPost | post
+inductive Act
+  | pre | power | dumpcap | connect | ecuConnect | tpStart | propsPre | setup | main
+  | tdPre | propsPost | tpStop | close | dcStop | tdPost | post
   deriving DecidableEq, Repr, Inhabited
 
 /-- an observable action together with what an onlooker sees at that moment -/
@@ -86,6 +148,9 @@ inductive Outcome
   | escCancelled       -- `CancelledError` left `entry_point()` (asyncio.run turns it into KeyboardInterrupt)
   | escHook            -- the `UnboundLocalError` of `run_hook` left `entry_point()`
   | escDb              -- the database error left `entry_point()`
+  | escArt             -- the `OSError` of `prepare_artifacts_dir` left `entry_point()` (traceback, process status 1)
+  | escLockWait        -- `CancelledError` left `entry_point()` out of `_aquire_flock` (the process ends, by SIGINT, once
+                       --   the blocked `flock` thread has got the lock)
   deriving DecidableEq, Repr, Inhabited
 
 structure MetaFile where
@@ -114,6 +179,12 @@ structure St where
   reports : List Hook := []
   preRan : Bool := false
   postEnv : Option PostEnv := none
+  tpRunning : Bool := false       -- the cyclic TesterPresent task exists and is not done
+  dcRunning : Bool := false       -- a dumpcap process started by this run is alive
+  waited : Bool := false          -- "waiting for flock…"
+  artDir : Option Nat := none     -- `self.artifacts_dir`
+  runs : List RunDir := []        -- the run directories on disk
+  latest : Option Nat := none     -- target of `LATEST`
   deriving DecidableEq, Repr, Inhabited
 
 structure Final where
@@ -128,6 +199,12 @@ structure Final where
   reports : List Hook
   transportClosed : Bool
   trace : List Obs
+  tpStopped : Bool := true
+  dcStopped : Bool := true
+  waited : Bool := false
+  artDir : Option Nat := none
+  runs : List RunDir := []
+  latest : Option Nat := none
   deriving DecidableEq, Repr, Inhabited
 
 def St.step (st : St) : St := { st with tick := st.tick + 1 }
@@ -139,6 +216,10 @@ def St.obs (st : St) (a : Act) : St :=
 def Kind.isScanner : Kind → Bool
   | .plain => false
   | _ => true
+
+def Kind.isUds : Kind → Bool
+  | .uds => true
+  | _ => false
 
 /-- number of `transport.close()` calls of a complete teardown: `UDSScanner.teardown` closes `ecu.transport`,
     then `Scanner.teardown` closes `self.transport` -/
@@ -153,42 +234,110 @@ def catched : Kind → List ErrClass
   | .scanner => [.conn, .uds]
   | .uds => [.conn, .uds]
 
-def St.obsN (st : St) (a : Act) : Nat → St
-  | 0 => st
-  | n + 1 => (st.obs a).obsN a n
+/-! ### `setup()` / `teardown()` as lists of steps -/
 
-/-- framework part of `teardown` (`UDSScanner.teardown` + `Scanner.teardown`): close the transport(s);
-    with the quirk, also disconnect the database without completing the row -/
-def baseTeardown (q : Quirks) (k : Kind) (st : St) : St :=
-  if k.isScanner then
-    let st := st.obsN .close k.closes
+/-- what a step does to the resources of the run besides being observed -/
+inductive Fx
+  | nop
+  | transportOpen
+  | transportClose
+  | transportCloseDbDrop    -- pinned `Scanner.teardown`: close the transport, then disconnect the database
+  | tpOn | tpOff
+  | dcOn | dcOff
+  deriving DecidableEq, Repr, Inhabited
+
+def St.fx (st : St) : Fx → St
+  | .nop => st
+  | .transportOpen => { st with transportOpen := true }
+  | .transportClose => { st with transportOpen := false }
+  | .transportCloseDbDrop =>
     let st := { st with transportOpen := false }
-    if q.scannerDisconnect && st.dbConn then { st.step with dbConn := false } else st
-  else st
+    if st.dbConn then { st.step with dbConn := false } else st
+  | .tpOn => { st with tpRunning := true }
+  | .tpOff => { st with tpRunning := false }
+  | .dcOn => { st with dcRunning := true }
+  | .dcOff => { st with dcRunning := false }
+
+/-- one awaited statement (or block) of a `setup` / `teardown` method -/
+structure Step where
+  act : Act
+  ev : Ev := none           -- what the script makes it do
+  onOk : Fx := .nop         -- effect when it returns
+  always : Fx := .nop       -- effect it has even when it raises
+  deriving DecidableEq, Repr, Inhabited
+
+/-- a sequence of awaited statements: the first one that raises ends it -/
+def runSteps : List Step → St → St × Option Exc
+  | [], st => (st, none)
+  | p :: ps, st =>
+    let st := (st.obs p.act).fx p.always
+    match p.ev with
+    | some e => (st, some e)
+    | none => runSteps ps (st.fx p.onOk)
+
+def dumpcapStep : Dumpcap → Step
+  | .started => { act := .dumpcap, onOk := .dcOn }
+  | .notStarted => { act := .dumpcap }
+  | .missing => { act := .dumpcap, ev := some (.err .other) }
+  | .syncFails => { act := .dumpcap, ev := some (.err .other), always := .dcOn }
+
+/-- `self.dumpcap` is set after `Scanner.setup` -/
+def dumpcapActive (c : Cfg) (s : Script) : Bool :=
+  c.art && c.dumpcap && (s.dumpcap == .started)
+
+/-- `Scanner.setup`: power supply, dumpcap, transport -/
+def scannerSetup (c : Cfg) (s : Script) : List Step :=
+  (if c.power then [{ act := .power, ev := s.power }] else []) ++
+  (if c.art && c.dumpcap then [dumpcapStep s.dumpcap] else []) ++
+  [{ act := .connect, ev := s.connect, onOk := .transportOpen }]
+
+/-- `UDSScanner.setup` after `super().setup()`: `ecu.connect()`, tester-present task, properties -/
+def udsSetup (c : Cfg) (s : Script) : List Step :=
+  [{ act := .ecuConnect, ev := s.ecuConnect }] ++
+  (if c.tp then [{ act := .tpStart, ev := s.tpStart, onOk := .tpOn }] else []) ++
+  (if c.props then [{ act := .propsPre, ev := s.propsPre }] else [])
+
+/-- `setup()` of the command: the framework's part (`super().setup()`), then the command's own code -/
+def setupSteps (c : Cfg) (s : Script) : List Step :=
+  (if c.kind.isScanner then scannerSetup c s else []) ++
+  (if c.kind.isUds then udsSetup c s else []) ++
+  [{ act := .setup, ev := s.setup }]
+
+/-- `UDSScanner.teardown` before `super().teardown()`: properties, tester-present task, `ecu.transport.close()` -/
+def udsTeardown (c : Cfg) (s : Script) : List Step :=
+  (if c.props then [{ act := .propsPost, ev := s.propsPost }] else []) ++
+  (if c.tp then [{ act := .tpStop, ev := s.tpStop, always := .tpOff }] else []) ++
+  [{ act := .close, ev := s.ecuClose, onOk := .transportClose }]
+
+/-- `Scanner.teardown`: `transport.close()`, then `dumpcap.stop()` when a capture is running -/
+def scannerTeardown (q : Quirks) (c : Cfg) (s : Script) : List Step :=
+  [{ act := .close, ev := s.close, onOk := if q.scannerDisconnect then .transportCloseDbDrop else .transportClose }] ++
+  (if dumpcapActive c s then [{ act := .dcStop, ev := s.dcStop, onOk := .dcOff }] else [])
+
+/-- `teardown()` of the command: its own code around the framework's part (`super().teardown()`) -/
+def teardownSteps (q : Quirks) (c : Cfg) (s : Script) : List Step :=
+  [{ act := .tdPre, ev := s.tdPre }] ++
+  (if c.kind.isUds then udsTeardown c s else []) ++
+  (if c.kind.isScanner then scannerTeardown q c s else []) ++
+  [{ act := .tdPost, ev := s.tdPost }]
 
 /-- `AsyncScript.run`: `setup()`; `try: main() finally: teardown()`.
     Returns the world afterwards and the exception that leaves `run()`, if any. -/
-def runBody (q : Quirks) (k : Kind) (s : Script) (st : St) : St × Option Exc :=
-  -- Scanner.setup: connect the transport, then the command's own setup code
-  let st := if k.isScanner then { st.obs .connect with transportOpen := true } else st
-  let st := st.obs .setup
-  match s.setup with
-  | some e => (st, some e)                     -- setup() is outside the try: no teardown
+def runBody (q : Quirks) (c : Cfg) (s : Script) (st : St) : St × Option Exc :=
+  let r := runSteps (setupSteps c s) st
+  match r.2 with
+  | some e => (r.1, some e)                    -- setup() is outside the try: no teardown
   | none =>
-    let st := st.obs .main
-    let st := st.obs .tdPre                    -- teardown runs whatever main did
-    match s.tdPre with
-    | some e => (st, some e)                   -- replaces main's exception; base teardown skipped
-    | none =>
-      let st := baseTeardown q k st
-      let st := st.obs .tdPost
-      match s.tdPost with
-      | some e => (st, some e)
-      | none => (st, s.main)
+    let st := r.1.obs .main
+    let t := runSteps (teardownSteps q c s) st -- teardown runs whatever main did
+    match t.2 with
+    | some e => (t.1, some e)                  -- replaces main's exception
+    | none => (t.1, s.main)
 
 /-- exit code constants (agreement with `gallia.exitcodes` / `signal.SIGINT` is a theorem over `Gen.C15Exit`) -/
 def OK : Nat := 0
 def SOFTWARE : Nat := 70
+def OSFILE : Nat := 72
 def IOERR : Nat := 74
 def SIGINT_EXIT : Nat := 130
 
@@ -241,7 +390,55 @@ def runHook (q : Quirks) (h : Hook) (fails : Bool) (st : St) : St × Bool :=
 def St.final (st : St) (o : Outcome) : Final :=
   { exit := o, metaFile := st.metaFile, dbRow := st.dbRow, dbClosed := !st.dbConn, logClosed := !st.logOpen,
     lockReleased := !st.lockHeld, preRan := st.preRan, postEnv := st.postEnv, reports := st.reports,
-    transportClosed := !st.transportOpen, trace := st.trace }
+    transportClosed := !st.transportOpen, trace := st.trace, tpStopped := !st.tpRunning, dcStopped := !st.dcRunning,
+    waited := st.waited, artDir := st.artDir, runs := st.runs, latest := st.latest }
+
+/-! ### the prologue of `entry_point`: lock, artifacts directory -/
+
+/-- what the run starts from -/
+def St.init (w : World) : St := { runs := w.runs, latest := w.latest }
+
+inductive LockRes
+  | ok (st : St)            -- the lock is ours
+  | failed                  -- OSError: `entry_point` logs it and returns `exitcodes.OSFILE`
+  | interrupted (st : St)   -- cancelled while waiting: the `await asyncio.to_thread(flock ...)` is outside every `try`
+  deriving Repr, Inhabited
+
+/-- `_open_lockfile` + `_aquire_flock` -/
+def lockPhase (w : World) (c : Cfg) (st : St) : LockRes :=
+  if c.lock then
+    match w.lock with
+    | .broken => .failed
+    | .busy => .ok { st.step with lockHeld := true, waited := true }  -- nothing else happens while it waits
+    | .free => .ok { st.step with lockHeld := true }
+    -- the helper thread keeps blocking in `flock` and takes the lock as soon as it is free; nothing releases it
+    | .interrupted => .interrupted { st.step with lockHeld := true, waited := true }
+  else .ok st
+
+/-- the name-wise last `run-*` directory (`_add_latest_link` sorts by name) -/
+def lastName : List RunDir → Option Nat
+  | [] => none
+  | r :: rs => match lastName rs with
+    | none => some r.name
+    | some m => some (max r.name m)
+
+/-- `write_text` on `<dir n>/META.json`: creates or overwrites -/
+def writeMeta (n tag : Nat) (rs : List RunDir) : List RunDir :=
+  rs.map fun r => if r.name == n then { r with metaTag := some tag } else r
+
+/-- `prepare_artifacts_dir` + `add_zst_log_handler`; `none` = the OSError of `mkdir` leaves `entry_point`.
+    `mkdir(parents=True)` has no `exist_ok`: a directory of the same name makes it raise. -/
+def artPhase (q : Quirks) (w : World) (c : Cfg) (st : St) : Option St :=
+  if c.art then
+    if !w.baseOk then none
+    else if st.runs.any (·.name == w.now) then
+      if q.mkdirExistOk then
+        some { st.step with artDir := some w.now, latest := lastName st.runs, logOpen := true }
+      else none
+    else
+      let runs := st.runs ++ [{ name := w.now }]
+      some { st.step with artDir := some w.now, runs := runs, latest := lastName runs, logOpen := true }
+  else some st
 
 /-- the `finally:` block of `entry_point` -/
 def finish (c : Cfg) (code : Nat) (st : St) : St :=
@@ -254,14 +451,16 @@ def finish (c : Cfg) (code : Nat) (st : St) : St :=
         | r => r
       { st.step with dbRow := row, dbConn := false }
     else st
-  let st := if c.art then { st.step with metaFile := some ⟨code, 0, stop⟩ } else st
+  let st := if c.art then
+      { st.step with metaFile := some ⟨code, 0, stop⟩,
+                     runs := match st.artDir with
+                       | some n => writeMeta n code st.runs
+                       | none => st.runs }
+    else st
   { st.step with logOpen := false }
 
-/-- flock, artifacts directory + log handler, pre-hook; `true` = the hook's UnboundLocalError escapes -/
-def prePhase (q : Quirks) (c : Cfg) (s : Script) : St × Bool :=
-  let st : St := {}
-  let st := if c.lock then { st.step with lockHeld := true } else st
-  let st := if c.art then { st.step with logOpen := true } else st
+/-- pre-hook; `true` = the hook's UnboundLocalError escapes -/
+def hookPre (q : Quirks) (c : Cfg) (s : Script) (st : St) : St × Bool :=
   if c.hooks then runHook q .pre s.preFails { st.obs .pre with preRan := true } else (st, false)
 
 /-- `_db_insert_run_meta` -/
@@ -271,7 +470,7 @@ def dbInsert (c : Cfg) (st : St) : St :=
 /-- the body of the `try:` — `_db_insert_run_meta()` then `run()`.  When the database cannot be opened,
     `DBHandler.connect` closes what it had opened and the error (an unexpected `Exception`) takes the place of the run. -/
 def tryBody (q : Quirks) (c : Cfg) (s : Script) (st : St) : St × Option Exc :=
-  if c.db && s.dbFails then (st.step, some (.err .other)) else runBody q c.kind s (dbInsert c st)
+  if c.db && s.dbFails then (st.step, some (.err .other)) else runBody q c s (dbInsert c st)
 
 /-- post-hook with `GALLIA_EXIT_CODE` and `GALLIA_META` -/
 def postPhase (q : Quirks) (c : Cfg) (s : Script) (code : Nat) (st : St) : St × Bool :=
@@ -283,8 +482,9 @@ def postPhase (q : Quirks) (c : Cfg) (s : Script) (code : Nat) (st : St) : St ×
 def unlock (c : Cfg) (st : St) : St :=
   if c.lock then { st.step with lockHeld := false } else st
 
-def entryPointQ (q : Quirks) (c : Cfg) (s : Script) : Final :=
-  let p := prePhase q c s
+/-- `entry_point` from the pre-hook on, the lock and the artifacts directory being there -/
+def fromPreHook (q : Quirks) (c : Cfg) (s : Script) (st : St) : Final :=
+  let p := hookPre q c s st
   if p.2 then p.1.final .escHook else           -- nothing below runs
   -- pinned behaviour: the insert is outside the try and the half-opened connection is left behind
   if q.dbOpenUnguarded && c.db && s.dbFails then ({ p.1.step with dbConn := true }).final .escDb else
@@ -295,6 +495,19 @@ def entryPointQ (q : Quirks) (c : Cfg) (s : Script) : Final :=
   let h := postPhase q c s m.1 st
   if h.2 then h.1.final .escHook else
   (unlock c h.1).final (.ret m.1)
+
+/-- `BaseCommand.entry_point` -/
+def entryPointW (q : Quirks) (w : World) (c : Cfg) (s : Script) : Final :=
+  match lockPhase w c (St.init w) with
+  | .failed => (St.init w).final (.ret OSFILE)  -- `return exitcodes.OSFILE`: nothing else happens
+  | .interrupted st => st.final .escLockWait    -- the CancelledError propagates: nothing else happens
+  | .ok st =>
+    match artPhase q w c st with
+    | none => st.final .escArt                  -- the OSError propagates: no handler, the lock fd stays open
+    | some st => fromPreHook q c s st
+
+/-- `entry_point` where the lock is free and the artifacts base is empty and writable -/
+def entryPointQ (q : Quirks) (c : Cfg) (s : Script) : Final := entryPointW q {} c s
 
 /-! ### names used by the agreement theorems with the tables regenerated from the source (`Gen.C15Exit`) -/
 
@@ -320,10 +533,16 @@ def ErrClass.name : ErrClass → String
   | .uds => "uds"
   | .other => "other"
 
+def Act.name : Act → String
+  | .pre => "pre" | .power => "power" | .dumpcap => "dumpcap" | .connect => "connect" | .ecuConnect => "ecuConnect"
+  | .tpStart => "tpStart" | .propsPre => "propsPre" | .setup => "setup" | .main => "main" | .tdPre => "tdPre"
+  | .propsPost => "propsPost" | .tpStop => "tpStop" | .close => "close" | .dcStop => "dcStop" | .tdPost => "tdPost"
+  | .post => "post"
+
 def ladderNames (q : Quirks) : List (List String × String) :=
   (ladder q).map fun p => (p.1.map ExcType.pyName, p.2.name)
 
-/-- the statements of `entry_point` in the order `entryPointQ` executes them -/
+/-- the statements of `entry_point` in the order `entryPointW` executes them -/
 def modelSteps : List String :=
   ["lock", "artifacts", "log_open", "pre_hook", "exit_code=0", "try:db_insert", "try:run",
    "finally:meta.exit_code", "finally:meta.end_time", "finally:db_finish", "finally:meta_write", "finally:log_close",
@@ -333,7 +552,50 @@ def modelSteps : List String :=
 def modelRunShape : List String :=
   ["await self.setup()", "try:await self.main()", "finally:await self.teardown()", "return exitcodes.OK"]
 
-/-- the code as it is now -/
+/-- everything switched on: every step of the framework's setup / teardown exists -/
+def Cfg.allOn (k : Kind) : Cfg :=
+  { kind := k, lock := true, art := true, db := true, hooks := true, power := true, dumpcap := true, tp := true,
+    props := true }
+
+/-- the steps of the four framework methods, by name, in the order `runSteps` performs them -/
+def scannerSetupOrder : List String := (scannerSetup (.allOn .scanner) {}).map (·.act.name)
+def udsSetupOrder : List String := (udsSetup (.allOn .uds) {}).map (·.act.name)
+def udsTeardownOrder : List String := (udsTeardown (.allOn .uds) {}).map (·.act.name)
+def scannerTeardownOrder : List String := (scannerTeardown {} (.allOn .scanner) {}).map (·.act.name)
+
+/-- the statements of the four methods in source order: the modelled steps, and by name the statements that are not
+    steps of the model (construction of the ECU object, the scan-run row whose errors are swallowed, the optional
+    ECUReset and the initial ping) -/
+def scannerSetupSrc : List String := scannerSetupOrder
+def udsSetupSrc : List String := ["super", "ecu:new", "ecu:db", "db:scan_run", "ecu_reset", "ping"] ++ udsSetupOrder
+def udsTeardownSrc : List String := udsTeardownOrder ++ ["super"]
+def scannerTeardownSrc : List String := scannerTeardownOrder
+
+/-- the `if` that guards each statement, as the step lists read it:
+    `power` / `art && dumpcap` / `tp` / `props` / `dumpcapActive` -/
+def modelGuards : List (String × String) :=
+  [("Scanner.setup:power", "self.config.power_supply is not None"),
+   ("Scanner.setup:dumpcap", "self.artifacts_dir and self.config.dumpcap"),
+   ("Scanner.setup:connect", ""),
+   ("UDSScanner.setup:super", ""), ("UDSScanner.setup:ecu:new", ""), ("UDSScanner.setup:ecu:db", ""),
+   ("UDSScanner.setup:db:scan_run", "self.db_handler is not None"),
+   ("UDSScanner.setup:ecu_reset", "self.config.ecu_reset is not None"),
+   ("UDSScanner.setup:ping", "self.config.ping"),
+   ("UDSScanner.setup:ecuConnect", ""),
+   ("UDSScanner.setup:tpStart", "self.config.tester_present"),
+   ("UDSScanner.setup:propsPre", "self.config.properties is True"),
+   ("UDSScanner.teardown:propsPost", "self.config.properties is True and (not self.ecu.transport.is_closed)"),
+   ("UDSScanner.teardown:tpStop", "self.config.tester_present"),
+   ("UDSScanner.teardown:close", ""), ("UDSScanner.teardown:super", ""),
+   ("Scanner.teardown:close", ""),
+   ("Scanner.teardown:dcStop", "self.dumpcap")]
+
+/-- `prepare_artifacts_dir` as `artPhase` reads it: name from the clock, `mkdir` (fails when the name exists), ENV dump,
+    `LATEST` -/
+def modelArtifactsSteps : List String :=
+  ["command_dir", "run_dir_name", "artifacts_dir", "mkdir", "dump_env", "latest_link", "return"]
+
+/-- the code as it is now, in a benign world -/
 def entryPoint (c : Cfg) (s : Script) : Final := entryPointQ {} c s
 
 end Gallia.Lifecycle
